@@ -83,7 +83,27 @@ func genAmountString(t *rapid.T) (string, string) {
 		return rapid.StringMatching(`[0-9]{`+itoa(min)+`,`+itoa(max)+`}`).Draw(t, label)
 	}
 	var s, label string
-	switch rapid.IntRange(0, 6).Draw(t, "strKind") {
+	switch rapid.IntRange(0, 8).Draw(t, "strKind") {
+	case 7:
+		// integral parts whose product with 10^8 wraps around a 64-bit word (and around 2^63) back into a
+		// small number: ceil(k*2^64 / 10^8) + d, and the same for 2^63 - far above the supply limit, so
+		// every one of them must be refused
+		word := new(big.Int).Lsh(big.NewInt(1), uint(rapid.SampledFrom([]int{63, 64}).Draw(t, "wordBits")))
+		k := big.NewInt(int64(rapid.IntRange(1, 400).Draw(t, "wraps")))
+		q := new(big.Int).Mul(k, word)
+		q.Add(q, big.NewInt(99999999))
+		q.Div(q, big.NewInt(100000000))
+		q.Add(q, big.NewInt(int64(rapid.IntRange(0, 3).Draw(t, "wrapDelta"))))
+		s, label = q.String(), "wraps-64-bit-product"
+		if rapid.Bool().Draw(t, "wrapFrac") {
+			s += "." + digits("frac", 1, 8)
+		}
+	case 8:
+		// very long digit strings (beyond any machine word)
+		s, label = digits("long", 11, 40), "long-integer"
+		if rapid.Bool().Draw(t, "longFrac") {
+			s += "." + digits("frac", 0, 8)
+		}
 	case 0:
 		s, label = digits("int", 1, 10), "integer"
 	case 1:
